@@ -1155,14 +1155,14 @@ pub fn run(ctx: &mut Ctx) {
     }
 
     // 3. generated frames x filters aimed at the frame
-    let n = ctx.n(12_000, 300_000);
+    let n = ctx.n(60_000, 400_000);
     for _ in 0..n {
         let f = gen_frame(&mut r).build();
         let c = gen_cfg_for(&mut r, &[&f]);
         emit_frame(ctx, &c, &f);
     }
     // single-bit corruption of well-formed frames
-    let n = ctx.n(2_000, 60_000);
+    let n = ctx.n(10_000, 80_000);
     for _ in 0..n {
         let mut s = FrameSpec::basic(*r.pick(&[Framing::Eth, Framing::Raw, Framing::Null]), r.chance(1, 3));
         s.payload = TLS_PARTIAL.to_vec();
@@ -1175,7 +1175,7 @@ pub fn run(ctx: &mut Ctx) {
     }
 
     // 4. end-to-end traces through analyze_pcap (sequential mode), four analyzers
-    let n = ctx.n(700, 12_000);
+    let n = ctx.n(3_000, 16_000);
     for i in 0..n {
         let an = [An::Tcp, An::Http, An::Tls, An::Unified][i % 4];
         let tr = gen_trace(&mut r, an);
